@@ -29,3 +29,10 @@ func VerifUnlock(l Limiter) { l.(*limiter).controller.lock.Unlock() }
 // VerifTickConsumed reports whether the ticker's channel is empty, i.e. a tick that has fired has been received by the
 // ticker goroutine (which is then blocked on the lock the harness holds).
 func VerifTickConsumed(l Limiter) bool { return len(l.(*limiter).controller.ticker.C) == 0 }
+
+// VerifRLock takes the controller's lock in READ mode on behalf of the harness (lines `rwin`: the harness is a reader
+// itself; the read-only calls made meanwhile must return, a writing call must wait), VerifRUnlock releases it.
+func VerifRLock(l Limiter) { l.(*limiter).controller.lock.RLock() }
+
+// VerifRUnlock releases the read lock taken by VerifRLock.
+func VerifRUnlock(l Limiter) { l.(*limiter).controller.lock.RUnlock() }
